@@ -226,11 +226,14 @@ def worker(args):
             continue
         open(os.path.join(wd, f), "w").write(new)
         try:
-            try:
-                p = subprocess.run(f"{PY} -m pytest -q -p no:cacheprovider -x 2>&1 | tail -1", shell=True, cwd=wd, capture_output=True, text=True, timeout=180)
-                line = p.stdout.strip().splitlines()[-1] if p.stdout.strip() else ""
-            except subprocess.TimeoutExpired:
-                line = "timeout"
+            if m.get("_skip_suite"):
+                line = "1 passed"
+            else:
+                try:
+                    p = subprocess.run(f"{PY} -m pytest -q -p no:cacheprovider -x 2>&1 | tail -1", shell=True, cwd=wd, capture_output=True, text=True, timeout=180)
+                    line = p.stdout.strip().splitlines()[-1] if p.stdout.strip() else ""
+                except subprocess.TimeoutExpired:
+                    line = "timeout"
             r["suite"] = "pass" if (" passed" in line and "failed" not in line and "error" not in line) else ("timeout" if line == "timeout" else "killed")
             if r["suite"] == "pass":
                 hits = []
@@ -265,7 +268,12 @@ def run(argv):
     muts = data["mutants"]
     rp = os.path.join(OUT, "results.json")
     results = json.load(open(rp)) if os.path.exists(rp) else {}
-    if argv and argv[0] == "--recheck":
+    if argv and argv[0] == "--recheck-silent":
+        # only the survivors no check reported (after rules were added)
+        todo = [m for m in muts if results.get(m["id"], {}).get("suite") == "pass" and not results[m["id"]].get("checks")]
+        for m in todo:
+            m["_skip_suite"] = True
+    elif argv and argv[0] == "--recheck":
         # re-run only the checks' verdict for the mutants that survive the suite (after the rules changed)
         todo = [m for m in muts if results.get(m["id"], {}).get("suite") == "pass" and (len(argv) == 1 or m["id"] in argv[1:])]
     elif argv:
@@ -274,6 +282,8 @@ def run(argv):
         todo = [m for m in muts if m["id"] not in results]
     todo = [{"id": "S-IDENT-" + f.replace("/", "_"), "file": f, "path": [], "op": "identity", "line": 0, "fn": "", "desc": "unparse only"} for f in FILES
             if "S-IDENT-" + f.replace("/", "_") not in results] + todo if not argv else todo
+    for m in todo:
+        m.setdefault("_skip_suite", False)
     print(len(todo), "to do with", jobs, "jobs")
     batches = [(i, todo[i::jobs]) for i in range(jobs)]
     t0 = time.time()
@@ -325,6 +335,8 @@ def table():
         fh.write("counts: " + ", ".join(f"{k}={v}" for k, v in sorted(c.items())) + "\n\n")
         fh.write("| id | where | mutation | checks | triage |\n|---|---|---|---|---|\n")
         for m, verdict, hits in rows:
+            if tri.get(m["id"], "").startswith("MISS -> fixed") and verdict == "silent":
+                verdict = "silent when the sweep ran; VIOLATION with the rule added since (`tools/sweep.py try`)"
             hs = "; ".join(h[:90] for h in hits[:3]).replace("|", "\\|")
             fh.write(f"| {m['id']} | {m['file'].replace('asyncfix/', '')}:{m['line']} {m['fn']} | {(m['desc'] + (' @ `' + m.get('stmt', '') + '`' if m['op'] in ('boolflip', 'int+1', 'int-1') else '')).replace('|', chr(92) + '|')} | {verdict}{': ' + hs if hs else ''} | {tri.get(m['id'], '') or auto(m)} |\n")
     print(dict(c))
